@@ -107,6 +107,9 @@ pub enum BIP32Error {
     /// Invalid child key, it cannot be greater than the group order (extremely unlikely)
     #[error("Invalid child key, cannot be greater than the group order")]
     InvalidChildScalar,
+    /// Derivation path has more than 255 components (depth is one byte)
+    #[error("Derivation path is too deep, at most 255 levels are supported")]
+    PathTooDeep,
 }
 
 impl XPubKey {
@@ -233,6 +236,7 @@ pub fn derive_xpub(
     let path = chain_path.path();
 
     let depth = path.len();
+    let depth_u8 = u8::try_from(depth).map_err(|_| BIP32Error::PathTooDeep)?;
 
     let final_child_num = if depth == 0 {
         &ChildIndex::Normal(0)
@@ -250,7 +254,7 @@ pub fn derive_xpub(
 
     Ok(XPubKey {
         prefix,
-        depth: depth as u8,
+        depth: depth_u8,
         parent_fingerprint,
         child_number: final_child_num.to_u32(),
         chain_code,
